@@ -893,10 +893,17 @@ def _rec_shape(ctx: Ctx, occ: FuncInfo) -> None:
     guards = [s for s in lp.body if isinstance(s, ast.If)]
     lp_body_wo_guard = [s for s in lp.body if s not in guards]
     gap_ok = False
-    if len(lp.body) == 1 and len(guards) == 1 and not guards[0].orelse and isinstance(guards[0].test, ast.UnaryOp) and isinstance(guards[0].test.op, ast.Not):
-        # canonical spelling of `if <reject>: continue; REST`  ==  `if not <reject>: REST`
+    if len(lp.body) == 1 and len(guards) == 1 and not guards[0].orelse and (isinstance(guards[0].test, ast.UnaryOp) and isinstance(guards[0].test.op, ast.Not)
+                                                                              or isinstance(guards[0].test, ast.BoolOp) and isinstance(guards[0].test.op, ast.Or)):
+        # canonical spelling of `if <reject>: continue; REST`  ==  `if not <reject>: REST` (the negation pushed inwards by De Morgan)
         g0 = guards[0]
-        guards = [ast.If(test=g0.test.operand, body=[ast.Continue()], orelse=[])]
+        if isinstance(g0.test, ast.UnaryOp):
+            reject = g0.test.operand
+        else:
+            from ..core import ct as _ct
+
+            reject = ast.BoolOp(op=ast.And(), values=[ast.parse(_ct(f"not ({unparse(v)})"), mode="eval").body for v in g0.test.values])
+        guards = [ast.If(test=reject, body=[ast.Continue()], orelse=[])]
         ast.copy_location(guards[0], g0)
         lp = ast.copy_location(ast.For(target=lp.target, iter=lp.iter, body=[guards[0]] + list(g0.body), orelse=[]), lp)
         lp_body_wo_guard = list(g0.body)
